@@ -200,14 +200,12 @@ def render(d):
             bits={"u8":8,"u16":16,"u32":32,"u64":64,"u128":128}[f.fo.ty]
             return f"Field {{ shape: Shape::Compact({bits}), skip: false }}"
         out.append(f"impl CompactAsSubject for {conc_name} {{ fn compact_shape() -> Shape {{ Shape::Struct(vec![{', '.join(cshape(f) for f in d.fields)}]) }} }}")
-        extra_regs.append(f'VT::base::<CompactOf<{conc_name}>>("Compact<{conc_name}>", "derived", false).mem::<CompactOf<{conc_name}>>()')
+        extra_regs.append(f'subjects::vt!(CompactOf<{conc_name}>, "Compact<{conc_name}>", "derived", false)')
     if d.tag in ("core","transparent","structgen") or (d.kind=="struct" and all(f.fo.skip or f.fo.zst for f in d.fields) and d.fields):
         for w in ("Vec<{}>","Box<{}>","Option<{}>","[{}; 2]"):
             t=w.format(conc_name)
-            extra_regs.append(f'VT::base::<{t}>("{t}", "derived", false).mem::<{t}>()')
-    reg=f'VT::base::<{conc_name}>("{conc_name}", "derived", {str(d.tag in CORE_TAGS).lower()})'
-    if mel: reg+=f".mel::<{conc_name}>()"
-    reg+=f".mem::<{conc_name}>()"
+            extra_regs.append(f'subjects::vt!({t}, "{t}", "derived", false)')
+    reg=f'subjects::vt!({conc_name}, "{conc_name}", "derived", {str(d.tag in CORE_TAGS).lower()})'
     return "\n".join(out), [reg]+extra_regs
 
 CORE_TAGS={"core"}
@@ -301,12 +299,57 @@ big=[("unit",[],("implicit",)) for _ in range(128)]+[("unit",[],("skip",))]+[("u
 d=mk_enum(big,"core"); defs.append(d)
 d=mk_enum([("unit",[],("implicit",)),("tuple",["vec"],("attr",200)),("named",["u8","cu32"],("implicit",)),("unit",[],("skip",)),("tuple",["opt"],("implicit",))],"core"); defs.append(d)
 
+# ---------------------------------------------------------------------------------------------
+# extended corpus (thorough tier only; crates regx0..7, cargo feature `xcorpus`)
+# ---------------------------------------------------------------------------------------------
+base_count=len(defs)
+XKEYS=["u8","cu32","vec","opt","sk64","skvec","as16","aspt","gen"]
+for a in XKEYS:
+    for b in XKEYS:
+        for c in XKEYS:
+            defs.append(struct(nm("X"),"tuple",[a,b,c],tag="xstruct3"))
+XS=[("unit",[]),("tuple",["u8"]),("named",["u8","cu32"])]
+XR=[("implicit",),("attr",0),("attr",2),("discr",1),("skip",)]
+for combo in itertools.product([(sh,sr) for sh in XS for sr in XR],repeat=3):
+    d=mk_enum([(sh[0],sh[1],sr) for sh,sr in combo],"xenum3")
+    if d: defs.append(d)
+NX=8
+
+def write_crates(root, prefix, idxs_all, ncrates, rendered, header, cargo):
+    parts=[idxs_all[i::ncrates] for i in range(ncrates)]
+    for k,idxs in enumerate(parts):
+        dd=os.path.join(root,"%s%d"%(prefix,k),"src"); os.makedirs(dd,exist_ok=True)
+        open(os.path.join(root,"%s%d"%(prefix,k),"Cargo.toml"),"w").write(cargo.replace("regd%d","%s%d"%(prefix,k)) if False else cargo_for(prefix,k))
+        with open(os.path.join(dd,"lib.rs"),"w") as f:
+            f.write(header)
+            for i in idxs: f.write(rendered[i][0]+"\n\n")
+            chunks=[idxs[i:i+40] for i in range(0,len(idxs),40)]
+            for c,ch in enumerate(chunks):
+                f.write(f"#[inline(never)]\nfn chunk{c}(v: &mut Vec<(usize, VT)>) {{\n")
+                for i in ch:
+                    for j,r in enumerate(rendered[i][1]): f.write(f"\tv.push(({i*8+j}, {r}));\n")
+                f.write("}\n\n")
+            f.write("pub fn types() -> Vec<(usize, VT)> {\n\tlet mut v = Vec::new();\n")
+            for c in range(len(chunks)): f.write(f"\tchunk{c}(&mut v);\n")
+            f.write("\tv\n}\n")
+
+def cargo_for(prefix,k):
+    return '''[package]
+name = "%s%d"
+version.workspace = true
+edition.workspace = true
+
+[dependencies]
+refmodel = { path = "../refmodel" }
+subjects = { path = "../subjects" }
+parity-scale-codec = { path = "/repo", features = ["derive", "bit-vec", "bytes", "generic-array", "max-encoded-len", "std"] }
+''' % (prefix,k)
+
 def main():
     if len(sys.argv)>=3 and sys.argv[1]=="--json":
         json.dump([{"name":d.name,"kind":d.kind,"tag":d.tag} for d in defs], open(sys.argv[2],"w")); return
     root=sys.argv[1]
     rendered=[render(d) for d in defs]
-    parts=[list(range(len(defs)))[i::NCRATES] for i in range(NCRATES)]
     header='''// @generated by /verif/gen/gen_derive.py -- do not edit
 #![allow(clippy::all, unused_imports, dead_code, non_camel_case_types)]
 use parity_scale_codec::{CompactAs, Decode, DecodeWithMemTracking, Encode, HasCompact, MaxEncodedLen};
@@ -325,21 +368,8 @@ refmodel = { path = "../refmodel" }
 subjects = { path = "../subjects" }
 parity-scale-codec = { path = "/repo", features = ["derive", "bit-vec", "bytes", "generic-array", "max-encoded-len", "std"] }
 '''
-    for k,idxs in enumerate(parts):
-        dd=os.path.join(root,"regd%d"%k,"src"); os.makedirs(dd,exist_ok=True)
-        open(os.path.join(root,"regd%d"%k,"Cargo.toml"),"w").write(cargo%k)
-        with open(os.path.join(dd,"lib.rs"),"w") as f:
-            f.write(header)
-            for i in idxs: f.write(rendered[i][0]+"\n\n")
-            chunks=[idxs[i:i+40] for i in range(0,len(idxs),40)]
-            for c,ch in enumerate(chunks):
-                f.write(f"#[inline(never)]\nfn chunk{c}(v: &mut Vec<(usize, VT)>) {{\n")
-                for i in ch:
-                    for j,r in enumerate(rendered[i][1]): f.write(f"\tv.push(({i*8+j}, {r}));\n")
-                f.write("}\n\n")
-            f.write("pub fn types() -> Vec<(usize, VT)> {\n\tlet mut v = Vec::new();\n")
-            for c in range(len(chunks)): f.write(f"\tchunk{c}(&mut v);\n")
-            f.write("\tv\n}\n")
+    write_crates(root,"regd",list(range(base_count)),NCRATES,rendered,header,None)
+    write_crates(root,"regx",list(range(base_count,len(defs))),NX,rendered,header,None)
     by={}
     for d in defs: by[d.tag]=by.get(d.tag,0)+1
     print(len(defs),"definitions", by)
